@@ -784,6 +784,18 @@ impl SerializableValue {
                     })?;
                 let body_ast = crate::expressions::pairs_to_expr(body_expression.into_inner())?;
 
+                // The same parameter names are refused as in source text: a parameter called
+                // like a constant or a built-in function could never be read
+                if let Some(arg) = s_lambda.args.iter().find(|arg| {
+                    matches!(arg.get_name(), "inf" | "infinity" | "constants")
+                        || crate::functions::is_built_in_function(arg.get_name())
+                }) {
+                    return Err(anyhow!(
+                        "{} cannot be used as a parameter name",
+                        arg.get_name()
+                    ));
+                }
+
                 let lambda = LambdaDef {
                     name: s_lambda.name.clone(),
                     args: s_lambda.args.clone(),
